@@ -56,3 +56,36 @@ theorem arg_resolve_own (imf : Assoc) (name : String) (d : Tree) (h : gniOwn.loo
   simp only [arg, lookup_resolve, h, Option.map_some, Option.getD_some]
 
 end Options
+
+namespace Options
+open Config
+
+/-! ### `partial(f, **frozen)(x, **call)` -/
+
+theorem mergeKw_eq_assignA : ∀ (call frozen : Assoc), mergeKw frozen call = assignA frozen call
+  | .nil, _ => rfl
+  | .cons k v r, frozen => by simp only [mergeKw, assignA]; exact mergeKw_eq_assignA r _
+
+/-- a keyword given at call time wins; a frozen keyword the call does not repeat stays -/
+theorem lookup_mergeKw (frozen call : Assoc) (hn : NodupKeys call) (p : Key) :
+    (mergeKw frozen call).lookup p = ((call.lookup p).orElse fun _ => frozen.lookup p) := by
+  rw [mergeKw_eq_assignA, lookup_assignA call frozen p hn]
+  cases call.lookup p <;> rfl
+
+/-- the keyword dictionaries of a user without other keywords -/
+theorem kwargsDirect_noTop (imf env ext : Option Assoc) :
+    NodupKeys (kwargsDirect { top := .nil, imf := imf, env := env, ext := ext }) ∧
+    (kwargsDirect { top := .nil, imf := imf, env := env, ext := ext }).lookup "imf_opts".toList = imf.map .dict ∧
+    (kwargsDirect { top := .nil, imf := imf, env := env, ext := ext }).lookup "envelope_opts".toList = env.map .dict ∧
+    (kwargsDirect { top := .nil, imf := imf, env := env, ext := ext }).lookup "extrema_opts".toList = ext.map .dict := by
+  have n1 : ¬ "imf_opts".toList = "envelope_opts".toList := by decide
+  have n2 : ¬ "imf_opts".toList = "extrema_opts".toList := by decide
+  have n3 : ¬ "envelope_opts".toList = "extrema_opts".toList := by decide
+  have n4 : ¬ "envelope_opts".toList = "imf_opts".toList := by decide
+  have n5 : ¬ "extrema_opts".toList = "imf_opts".toList := by decide
+  have n6 : ¬ "extrema_opts".toList = "envelope_opts".toList := by decide
+  refine ⟨?_, ?_, ?_, ?_⟩ <;> cases imf <;> cases env <;> cases ext <;>
+    simp [-String.reduceToList, NodupKeys, kwargsDirect, optEntry, Assoc.append, Assoc.keys, Assoc.lookup,
+      n1, n2, n3, n4, n5, n6]
+
+end Options
